@@ -13,6 +13,7 @@ import CelloGen.CmpLoops
 import CelloProofs.Lemmas.Cmp
 import CelloProofs.Lemmas.CmpVal
 import CelloProofs.Lemmas.CmpObj
+import CelloProofs.Lemmas.CmpFloat
 
 set_option linter.unusedSimpArgs false
 
@@ -155,60 +156,125 @@ theorem C09_int_preds (a b : BitVec 64) :
   · rw [p.2.2.2.2.1]; omega
   · rw [p.2.2.2.2.2]; omega
 
-/-! ### Float, under the stated hypothesis about the machine's double subtraction -/
+/-! ### Float: IEEE-754 binary64 read through its three fields
 
-/-- **C09 (Float), under `SubSign`.** If for non-NaN doubles the sign of `a - b` is the sign of the real difference, then
-    `Float_Cmp` — as translated from the source — orders non-NaN doubles numerically (`fkey`: signed zeros equal,
-    infinities extreme, denormals distinct), is lawful, and is 0 exactly for numerically equal values. -/
-theorem C09_float_under_SubSign (ops : FloatOps UInt64) (hs : SubSign ops) :
+  `fval b` is the VALUE of the bit pattern `b` by the standard's formula, `(-1)^s · (2^52·[e≠0] + m) · 2^(max e 1 - 1)` in units
+  of 2^-1074 — an integer for every finite double.  `roundedOps rnd` is IEEE subtraction ("the exact difference, rounded by
+  `rnd`"; an infinite operand decides alone; `inf - inf` of one sign is NaN) and the exact `<`.  `Rounding rnd` asks of
+  `rnd` what every IEEE rounding direction has: monotone, never NaN, 0 and ±2^-1074 stay (gradual underflow). -/
+
+/-- the numeric order of the values IS the sign-magnitude order of the bit patterns (all 2^128 pairs), and two patterns
+    have the same value exactly when they are the same pattern or both are zeros (`0.0`, `-0.0`) -/
+theorem C09_float_bits_order (a b : UInt64) :
+    (fval a < fval b ↔ fkey a < fkey b) ∧ (fval a = fval b ↔ fkey a = fkey b) ∧
+    (fval a = fval b ↔ (a = b ∨ (fval a = 0 ∧ fval b = 0))) :=
+  ⟨fval_lt_iff_fkey_lt a b, fval_eq_iff_fkey_eq a b, fval_eq_iff_bits a b⟩
+
+/-- the rounded exact difference of two finite doubles has the sign of the exact difference and is zero only when that
+    is: a non-zero difference of two multiples of 2^-1074 is at least 2^-1074 in magnitude, which is representable -/
+theorem C09_float_difference_sign (rnd : Int → UInt64) (h : Rounding rnd) (a b : UInt64) :
+    (0 < fval (rnd (fval a - fval b)) ↔ fval b < fval a) ∧ (fval (rnd (fval a - fval b)) < 0 ↔ fval a < fval b) ∧
+    (fval (rnd (fval a - fval b)) = 0 ↔ fval a = fval b) := by
+  have s := h.sign (fval a - fval b)
+  refine ⟨?_, ?_, ?_⟩ <;> omega
+
+/-- **C09 (Float), all non-NaN pairs.** With subtraction as IEEE-754 defines it (under any rounding function that is
+    monotone, NaN-free and exact on 0 and ±2^-1074), `Float_Cmp` — as translated from the source — orders non-NaN doubles by
+    their VALUES: signed zeros compare equal, denormals are distinct from zero and from each other, the infinities are the
+    extremes and equal to themselves (`inf - inf` is NaN, for which neither `c > 0` nor `c < 0` holds: the code returns 0).
+    Hence it is antisymmetric, transitive, reflexive, and 0 exactly for equal values. -/
+theorem C09_float (rnd : Int → UInt64) (h : Rounding rnd) :
+    (∀ a b, fIsNaN a = false → fIsNaN b = false →
+      (floatCmp (roundedOps rnd) a b < 0 ↔ fval a < fval b) ∧ (floatCmp (roundedOps rnd) a b = 0 ↔ fval a = fval b) ∧
+      (0 < floatCmp (roundedOps rnd) a b ↔ fval b < fval a)) ∧
+    StrictCmpOn (fun a => fIsNaN a = false) (fun a b => fval a = fval b) (floatCmp (roundedOps rnd)) := by
+  have hs := subSign_rounded h
+  have key : ∀ a b, fIsNaN a = false → fIsNaN b = false →
+      (floatCmp (roundedOps rnd) a b < 0 ↔ fval a < fval b) ∧ (floatCmp (roundedOps rnd) a b = 0 ↔ fval a = fval b) ∧
+      (0 < floatCmp (roundedOps rnd) a b ↔ fval b < fval a) := by
+    intro a b na nb
+    have k := floatCmp_of_subSign (roundedOps rnd) hs a b na nb
+    rw [fval_lt_iff_fkey_lt, fval_eq_iff_fkey_eq, fval_lt_iff_fkey_lt]; exact k
+  exact ⟨key, strictCmpOn_of_key fval (fun a b pa pb => (key a b pa pb).1) (fun a b pa pb => (key a b pa pb).2.2)⟩
+
+/-- the hypothesis is met by an actual IEEE rounding direction (`roundTowardZero`, saturating at DBL_MAX) and by the
+    sign-only function the driver runs; signed zeros, the smallest denormal, DBL_MAX against -DBL_MAX (the exact difference
+    does not fit a double), the infinities -/
+example : Rounding truncRound ∧ Rounding signRound := ⟨rounding_trunc, rounding_sign⟩
+
+example : floatCmp ieeeOps 0x8000000000000000 0 = 0 ∧ floatCmp ieeeOps 0x0000000000000001 0 = 1 ∧
+    floatCmp ieeeOps 0x7fefffffffffffff 0xffefffffffffffff = 1 ∧ floatCmp ieeeOps 0xfff0000000000000 0x7ff0000000000000 = -1 ∧
+    floatCmp ieeeOps 0x7ff0000000000000 0x7ff0000000000000 = 0 ∧ floatCmp ieeeOps 0x7ff0000000000000 0x7fefffffffffffff = 1 ∧
+    floatCmp (roundedOps truncRound) 0x3ff0000000000001 0x3ff0000000000000 = 1 ∧
+    truncRound (fval 0x4008000000000000 - fval 0x3ff0000000000000) = 0x4000000000000000 := by
+  refine ⟨?_, ?_, ?_, ?_, ?_, ?_, ?_, ?_⟩ <;> decide +kernel
+
+/-- FULL statement about the machine (not provable in Lean: `Float.ofBits`, `-`, `<` on `Float` are opaque to the kernel):
+    the hardware's double subtraction and `<` behave like `roundedOps rnd` for some rounding function, as far as
+    `Float_Cmp` can see.  This is IEEE-754 §5.4.1 + §4.3 for x86-64 SSE (no flush-to-zero); the harness compares the real
+    `cmp` with the model run on `ieeeOps` on every grid and random pair. -/
+def C09_float_machine_statement : Prop := SubSign hwFloatOps
+
+/-- **C09 (Float), for abstract operations — what stays conditional.**  For ANY double operations `ops` for which the
+    sign of `a - b` is the order of the bit keys (`SubSign`: that IS the conclusion, restated for `sub`/`lt`), `Float_Cmp` as
+    translated orders by the keys.  Kept because `C09_float` goes through it (`subSign_rounded` proves the hypothesis for
+    `roundedOps rnd`) and because it is the form in which `C09_float_machine_statement` would be used.  What is missing
+    for the machine: a proof that `hwFloatOps` satisfies `SubSign` — Lean has no model of the hardware. -/
+theorem C09_float_under_SubSign_partial (ops : FloatOps UInt64) (hs : SubSign ops) :
     (∀ a b, fIsNaN a = false → fIsNaN b = false →
       (floatCmp ops a b < 0 ↔ fkey a < fkey b) ∧ (floatCmp ops a b = 0 ↔ fkey a = fkey b) ∧
       (0 < floatCmp ops a b ↔ fkey b < fkey a)) ∧
-    StrictCmpOn (fun a => fIsNaN a = false) (fun a b => fkey a = fkey b) (floatCmp ops) := by
-  have key : ∀ a b, fIsNaN a = false → fIsNaN b = false →
-      (floatCmp ops a b < 0 ↔ fkey a < fkey b) ∧ (floatCmp ops a b = 0 ↔ fkey a = fkey b) ∧
-      (0 < floatCmp ops a b ↔ fkey b < fkey a) := by
-    intro a b na nb
-    have hp := hs.pos a b na nb
-    have hn := hs.neg a b na nb
-    simp only [floatCmp, CelloGen.Cmp.floatCmp]
-    refine ⟨?_, ?_, ?_⟩ <;> (repeat' split) <;>
-      (try simp only [BitVec.reduceSub, BitVec.reduceAdd, BitVec.reduceNeg, BitVec.reduceToInt, true_iff, false_iff,
-         iff_true, iff_false, Int.reduceNeg, Int.reduceLT, Int.reduceEq, Int.reduceNegSucc]) <;>
-      (try simp_all) <;> (try omega)
-  exact ⟨key, strictCmpOn_of_key fkey (fun a b pa pb => (key a b pa pb).1) (fun a b pa pb => (key a b pa pb).2.2)⟩
-
-/-- the hypothesis is satisfiable (non-vacuity), and signed zeros compare equal under it -/
-example : SubSign refFloatOps ∧ floatCmp refFloatOps 0x8000000000000000 0 = 0 ∧
-    floatCmp refFloatOps 0x0000000000000001 0 = 1 ∧ floatCmp refFloatOps 0xfff0000000000000 0x7ff0000000000000 = -1 :=
-  ⟨subSign_ref, by decide, by decide, by decide⟩
+    StrictCmpOn (fun a => fIsNaN a = false) (fun a b => fkey a = fkey b) (floatCmp ops) :=
+  ⟨floatCmp_of_subSign ops hs,
+   strictCmpOn_of_key fkey (fun a b pa pb => (floatCmp_of_subSign ops hs a b pa pb).1)
+     (fun a b pa pb => (floatCmp_of_subSign ops hs a b pa pb).2.2)⟩
 
 /-! ### every value the engine compares: nested containers, all kinds -/
 
-/-- **C09 (all values), under `SubSign` for the Float leaves.** For every kind `k` — Int, Float without NaN, String, Type,
-    one plain struct type, sequences (Array / List / Tuple in any mixture) of one element kind, Trees of one key kind and
-    one value kind, nested to any depth — `cmp` restricted to the values of kind `k` is antisymmetric in sign and
-    transitive (hence reflexive, a total preorder), and it is 0 exactly on values of equal content (`norm`: container
-    kinds erased, `-0.0 = 0.0`). -/
-theorem C09_val (ops : FloatOps UInt64) (hs : SubSign ops) (k : Kind) :
-    StrictCmpOn (hasKind k) (fun a b => norm a = norm b) (valCmp ops) :=
-  valCmp_strict ops (C09_float_under_SubSign ops hs).2 C09_int_lawful k
+/-- **C09 (all values).** For every kind `k` — Int, Float without NaN, String, Type, one plain struct type, sequences
+    (Array / List / Tuple in any mixture) of one element kind, sequences with a kind per slot (heterogeneous Tuples,
+    `Kind.cons` / `Kind.tup`), Trees of one key kind and one value kind, nested to any depth — `cmp` restricted to the values
+    of kind `k` is antisymmetric in sign and transitive (hence reflexive, a total preorder), and it is 0 exactly on values
+    of equal content (`norm`: container kinds erased, `-0.0 = 0.0`).  Float leaves: IEEE subtraction under any `Rounding`.
+    Type objects are compared, and identified, by NAME (`Val.typ name`): two Type objects of one name compare 0. -/
+theorem C09_val (rnd : Int → UInt64) (h : Rounding rnd) (k : Kind) :
+    StrictCmpOn (hasKind k) (fun a b => norm a = norm b) (valCmp (roundedOps rnd)) :=
+  valCmp_strict (roundedOps rnd) (C09_float_under_SubSign_partial _ (subSign_rounded h)).2 C09_int_lawful k
 
 /-- hence `eq` is equality of content and `neq` its negation, on the values of any one kind -/
-theorem C09_eq_is_content_equality (ops : FloatOps UInt64) (hs : SubSign ops) (k : Kind) (a b : Val)
+theorem C09_eq_is_content_equality (rnd : Int → UInt64) (h : Rounding rnd) (k : Kind) (a b : Val)
     (ha : hasKind k a) (hb : hasKind k b) :
-    (CelloGen.Cmp.eq (valCmp ops) a b = true ↔ norm a = norm b) ∧
-    (CelloGen.Cmp.neq (valCmp ops) a b = true ↔ norm a ≠ norm b) := by
-  have z := (C09_val ops hs k).zero_iff a b ha hb
-  have p := C09_preds (valCmp ops) a b
+    (CelloGen.Cmp.eq (valCmp (roundedOps rnd)) a b = true ↔ norm a = norm b) ∧
+    (CelloGen.Cmp.neq (valCmp (roundedOps rnd)) a b = true ↔ norm a ≠ norm b) := by
+  have z := (C09_val rnd h k).zero_iff a b ha hb
+  have p := C09_preds (valCmp (roundedOps rnd)) a b
   exact ⟨p.1.trans z, p.2.1.trans (not_congr z)⟩
 
 /-- **C09 (all values without Float), unconditionally.** For kinds with no Float at any level nothing is assumed: whatever
     the floating-point operations do, `cmp` is a lawful order on these values, 0 exactly on equal content. -/
 theorem C09_val_float_free (ops : FloatOps UInt64) (k : Kind) (hk : k.floatFree) :
     StrictCmpOn (hasKind k) (fun a b => norm a = norm b) (valCmp ops) :=
-  (C09_val refFloatOps subSign_ref k).pullback id (fun _ h => h)
-    (fun a b ha hb => valCmp_ops_irrelevant ops refFloatOps k hk a b ha hb) (fun _ _ _ _ => Iff.rfl)
+  (C09_val signRound rounding_sign k).pullback id (fun _ h => h)
+    (fun a b ha hb => valCmp_ops_irrelevant ops (roundedOps signRound) k hk a b ha hb) (fun _ _ _ _ => Iff.rfl)
+
+/-- **C09 (heterogeneous Tuples).** Tuples whose slots have the kinds `ks` position by position (what `tuple(...)` and Zip
+    build), of any length up to `|ks|`, against each other and against Arrays / Lists of the same content: a lawful order, 0
+    exactly on equal content.  Instance of `C09_val` at `Kind.tup ks`. -/
+theorem C09_val_tuple (rnd : Int → UInt64) (h : Rounding rnd) (ks : List Kind) :
+    StrictCmpOn (hasKind (Kind.tup ks)) (fun a b => norm a = norm b) (valCmp (roundedOps rnd)) :=
+  C09_val rnd h (Kind.tup ks)
+
+/-- non-vacuity: `tuple($I(1), $S("ab"), $F(2.0))`, the same with `$F(3.0)`, and the prefix `tuple($I(1), $S("ab"))` are all
+    of kind `tup [int, str, flt]`; the signs are the ones the C code gives (audit, t.c) -/
+example :
+    let k := Kind.tup [.int, .str, .flt]
+    let a : Val := .seq .tuple [.int 1, .str [0x61, 0x62], .flt 0x4000000000000000]
+    let b : Val := .seq .tuple [.int 1, .str [0x61, 0x62], .flt 0x4008000000000000]
+    let c : Val := .seq .tuple [.int 1, .str [0x61, 0x62]]
+    hasKind k a ∧ hasKind k b ∧ hasKind k c ∧ valCmp ieeeOps a b = -1 ∧ valCmp ieeeOps b a = 1 ∧ valCmp ieeeOps c a = -1 ∧
+      valCmp ieeeOps a a = 0 := by
+  refine ⟨?_, ?_, ?_, by decide +kernel, by decide +kernel, by decide +kernel, by decide +kernel⟩ <;>
+    simp [hasKind, Kind.tup, NulFree] <;> decide
 
 /-- Array vs List vs Tuple: the comparison depends only on the element sequences, not on the container kinds -/
 theorem C09_lex_content (ops : FloatOps UInt64) (s s' : SeqKind) (xs ys : List Val) :
@@ -237,13 +303,29 @@ example : treeOf intCmp [((1 : BitVec 64), 10), (BitVec.ofNat 64 (2^32), 20), (1
     = [(BitVec.ofNat 64 (2^32), 20), (1, 30), (0, 40)] := by decide
 
 /-- `cmp` of src/Cmp.c on the value universe: plain structs are compared bytewise when both are of one type of non-zero
-    size and raise TypeError otherwise; every other value goes to its type's own comparison -/
+    size and raise TypeError otherwise (also against anything that is not a plain struct); operands that match in shape at
+    every level go to the type's own comparison; operands that do not match at the top RAISE (they are never 0):
+    `cmp($I(3), $F(3.5))` and `cmp($I(3), $S("a"))` ClassError, `cmp(Int, $I(3))` ValueError (ran against /repo) -/
 theorem C09_cmp_dispatch (ops : FloatOps UInt64) :
     (∀ t xs t' ys, cmpTop ops (.plain t xs) (.plain t' ys) =
       if t = t' ∧ plainSize t ≠ 0 then .ok (bytesCmp xs ys) else .exc "TypeError") ∧
-    (∀ a b, (∀ t xs, a ≠ .plain t xs) → cmpTop ops a b = .ok (valCmp ops a b)) := by
-  refine ⟨fun t xs t' ys => rfl, fun a b h => ?_⟩
-  cases a <;> first | rfl | (exact absurd rfl (h _ _))
+    (∀ t xs b, (∀ t' ys, b ≠ .plain t' ys) → cmpTop ops (.plain t xs) b = .exc "TypeError") ∧
+    (∀ a b, comparable a b = true → cmpTop ops a b = .ok (valCmp ops a b)) ∧
+    (∀ a b c, cmpTop ops a b = .ok c → (∃ t xs ys, a = .plain t xs ∧ b = .plain t ys) ∨ comparable a b = true) ∧
+    cmpTop ops (.int 3) (.flt 0x400c000000000000) = .exc "ClassError" ∧ cmpTop ops (.int 3) (.str [0x61]) = .exc "ClassError" ∧
+    cmpTop ops (.int 3) (.plain 1 [0, 0, 0, 0]) = .exc "ClassError" ∧ cmpTop ops (.typ [0x49]) (.int 3) = .exc "ValueError" ∧
+    cmpTop ops (.seq .array [.int 1]) (.int 1) = .exc "ClassError" := by
+  refine ⟨fun t xs t' ys => rfl, fun t xs b h => ?_, fun a b h => ?_, fun a b c h => ?_, rfl, rfl, rfl, rfl, rfl⟩
+  · cases b <;> first | rfl | (exact absurd rfl (h _ _))
+  · cases a <;> cases b <;> simp_all [cmpTop, comparable]
+  · by_cases hc : comparable a b = true
+    · exact Or.inr hc
+    · left
+      cases a <;> cases b <;> simp only [cmpTop, hc, if_false, reduceCtorEq, Bool.false_eq_true] at h
+      rename_i t xs t' ys
+      by_cases ht : t = t' ∧ plainSize t ≠ 0
+      · exact ⟨t, xs, ys, rfl, by rw [ht.1]⟩
+      · rw [if_neg ht] at h; cases h
 
 /-- non-vacuity of `C09_val`: concrete nested values of one kind, with boundary integers, a prefix string, bytes > 127 -/
 example :
@@ -251,13 +333,15 @@ example :
     let a : Val := .seq .array [.tree [(.int (BitVec.ofNat 64 (2^32)), .seq .tuple [.str [0x61, 0xff]]), (.int 0, .seq .list [])]]
     let b : Val := .seq .tuple [.tree [(.int (BitVec.ofNat 64 (2^32)), .seq .list [.str [0x61, 0xff], .str []]), (.int 0, .seq .list [])]]
     hasKind k a ∧ hasKind k b ∧ k.floatFree ∧ valCmp refFloatOps a b = -1 ∧ valCmp refFloatOps b a = 1 := by
-  refine ⟨?_, ?_, ?_, by decide, by decide⟩ <;> simp [hasKind, Kind.floatFree]
+  refine ⟨?_, ?_, ?_, by decide, by decide⟩ <;> simp [hasKind, Kind.floatFree, NulFree]
 
 /-! ### objects: one object in several slots, in both operands, an operand compared with itself
 
   A Tuple holds references, so the operands of `cmp` are object GRAPHS (`Obj`): the same object may sit in two slots of a
-  Tuple, in both operands, or be both operands.  `objCmpF D` runs the loops of Array_Cmp / List_Cmp / Tuple_Cmp on such
-  graphs under the traversal discipline `D`; `sourceDiscipline` is the one read off the source on every run. -/
+  Tuple, in both operands, or be both operands — and a Tuple that is an ELEMENT of an Array / List or a VALUE of a Tree is a
+  copy made by Tuple_Assign, which copies the item pointers: it references what its source references (`Obj.cont`,
+  `Obj.tree`).  `objCmpF D` runs the loops of Array_Cmp / List_Cmp / Tuple_Cmp / Tree_Cmp on such graphs under the traversal
+  discipline `D`; `sourceDiscipline` is the one read off the source on every run. -/
 
 open CelloGen.CmpLoops (sourceDiscipline)
 
@@ -271,50 +355,73 @@ def C09_tuple_walk_content_statement : Prop :=
     index (`sourceDiscipline.tupleSelf = .byIndex`: this `rfl` is what a change of the loop breaks), Array_Cmp / List_Cmp
     through their positional iterators — `cmp(self, obj)` ends within `size self` steps and is `valCmp` of the two
     contents, for EVERY `self`: whatever objects its Tuples reference from several slots, at any depth, whatever it
-    shares with `obj`, also when `self` and `obj` are one object.  Hypothesis on `obj` only: no Tuple inside it references
-    one object from two slots (`obj` is walked through `iter_next`, which for a Tuple searches by identity). -/
+    shares with `obj`, also when `self` and `obj` are one object.  Hypothesis on `obj` only: no Tuple inside it — at top
+    level, as a slot of another Tuple, as an element of an Array / List, as a value of a Tree, at any depth (`Obj.nodup`
+    recurses through `tuple`, `cont` and `tree`) — references one object from two slots (`obj` is walked through
+    `iter_next`, which for a Tuple searches by identity). -/
 theorem C09_tuple_walk_content_partial (ops : FloatOps UInt64) (fuel : Nat) (a b : Obj) (hf : a.size ≤ fuel)
     (hb : b.nodup = true) : objCmpF sourceDiscipline ops fuel a b = some (valCmp ops a.content b.content) :=
   objCmpF_eq_content sourceDiscipline ops rfl fuel a b hf hb
 
-/-- witnesses used below: `one`, `two` are Int objects; `sharedT = tuple(one, one, two)`, `sharedP = tuple(one, one)` -/
+/-- witnesses used below: `one`, `two` are Int objects; `sharedT = tuple(one, one, two)`, `sharedP = tuple(one, one)`;
+    `arrOfT = new(Array, Tuple, sharedT)`, `lstOfT = new(List, Tuple, sharedT)`, `treeOfT = new(Tree, Int, Tuple, $I(7), sharedT)`:
+    the embedded copy of the Tuple references `one` twice, as its source does; `arrOfFresh` is the Array of a Tuple of the
+    same content over three objects -/
 def wOne : Obj := .val (.int 1)
 def wTwo : Obj := .val (.int 2)
 def sharedT : Obj := .tuple [(1, wOne), (1, wOne), (2, wTwo)]
 def sharedP : Obj := .tuple [(1, wOne), (1, wOne)]
 def arr112 : Obj := .val (.seq .array [.int 1, .int 1, .int 2])
 def lst111 : Obj := .val (.seq .list [.int 1, .int 1, .int 1])
+def arrOfT : Obj := .cont .array [(10, sharedT)]
+def lstOfT : Obj := .cont .list [(11, sharedT)]
+def treeOfT : Obj := .tree [(.int 7, sharedT)]
+def arrOfFresh : Obj := .cont .array [(12, .tuple [(3, wOne), (4, wOne), (5, wTwo)])]
+def treeOfFresh : Obj := .val (.tree [(.int 7, .seq .tuple [.int 1, .int 1, .int 2])])
 
 /-- non-vacuity: a Tuple with one object in two slots as `self`, against an Array, a Tuple that shares its objects, and a
-    nested Tuple that holds the shared Tuple twice -/
+    nested Tuple that holds the shared Tuple twice; an Array / a Tree holding such a Tuple as `self` against one that does
+    not (`obj` satisfies the hypothesis, `self` need not) -/
 example (ops : FloatOps UInt64) :
     sharedT.size ≤ 20 ∧ arr112.nodup = true ∧ objCmpF sourceDiscipline ops 20 sharedT arr112 = some 0 ∧
     objCmpF sourceDiscipline ops 20 sharedT (.tuple [(1, wOne), (3, wOne), (2, wOne)]) = some 1 ∧
-    objCmpF sourceDiscipline ops 40 (.tuple [(7, sharedT), (7, sharedT)]) (.tuple [(8, arr112), (9, arr112), (2, wTwo)]) = some (-1) :=
-  ⟨by decide, rfl, rfl, rfl, rfl⟩
+    objCmpF sourceDiscipline ops 40 (.tuple [(7, sharedT), (7, sharedT)]) (.tuple [(8, arr112), (9, arr112), (2, wTwo)]) = some (-1) ∧
+    arrOfT.size ≤ 20 ∧ arrOfFresh.nodup = true ∧ objCmpF sourceDiscipline ops 20 arrOfT arrOfFresh = some 0 ∧
+    treeOfFresh.nodup = true ∧ objCmpF sourceDiscipline ops 20 treeOfT treeOfFresh = some 0 :=
+  ⟨by decide, rfl, rfl, rfl, rfl, by decide, rfl, rfl, rfl, rfl⟩
 
-/-- hence on objects none of whose Tuples holds an object twice `cmp` is a lawful order, 0 exactly on equal content
-    (under `SubSign` for Float leaves), with the fuel the driver uses -/
-theorem C09_obj (ops : FloatOps UInt64) (hs : SubSign ops) (k : Kind) :
+/-- hence on objects none of whose Tuples — at any depth, also inside Arrays, Lists and Tree values — holds an object twice
+    `cmp` is a lawful order, 0 exactly on equal content, for every kind (also heterogeneous Tuples), with the fuel the
+    driver uses.  The hypothesis is not vacuous where it matters: `arrOfT.nodup = false` (theorem below), `arrOfFresh.nodup = true`. -/
+theorem C09_obj (rnd : Int → UInt64) (h : Rounding rnd) (k : Kind) :
     StrictCmpOn (fun o : Obj => o.nodup = true ∧ hasKind k o.content) (fun a b => norm a.content = norm b.content)
-      (fun a b => (objCmpF sourceDiscipline ops (fuelFor a b) a b).getD 0) :=
-  (C09_val ops hs k).pullback Obj.content (fun _ h => h.2)
+      (fun a b => (objCmpF sourceDiscipline (roundedOps rnd) (fuelFor a b) a b).getD 0) :=
+  (C09_val rnd h k).pullback Obj.content (fun _ h => h.2)
     (fun a b _ hb => by
-      rw [C09_tuple_walk_content_partial ops (fuelFor a b) a b (by unfold fuelFor; omega) hb.1]; rfl)
+      rw [C09_tuple_walk_content_partial (roundedOps rnd) (fuelFor a b) a b (by unfold fuelFor; omega) hb.1]; rfl)
     (fun _ _ _ _ => Iff.rfl)
 
 /-- **Known finding KF-C09-tuple-dup-obj: the full statement is refuted.** A Tuple that references one object from two slots
     as the RIGHT operand (`obj`) is walked through Tuple_Iter_Next, which finds the current element again by identity and so
     returns to the slot after its FIRST occurrence: `x = tuple(one, one, two)` gives `cmp(x, x) = 1` (not reflexive), and
-    against the Array `[1, 1, 2]` `cmp(x, arr) = 0` but `cmp(arr, x) = 1` (not antisymmetric). -/
+    against the Array `[1, 1, 2]` `cmp(x, arr) = 0` but `cmp(arr, x) = 1` (not antisymmetric).  The same one level down:
+    `ax = new(Array, Tuple, x)` against `ay`, the Array of a Tuple of equal content over distinct objects, gives
+    `cmp(ay, ax) = 1`, `cmp(ax, ay) = 0`, `cmp(ax, ax) = 1`; likewise for a List, and for a Tree with `x` as a value
+    (`cmp(tx, tx) = 1`).  All of these operands have `nodup = false`: they are exactly what `C09_obj` excludes. -/
 theorem C09_tuple_walk_content_refuted :
     (∀ ops : FloatOps UInt64, objCmpF sourceDiscipline ops 20 sharedT sharedT = some 1 ∧
       objCmpF sourceDiscipline ops 20 sharedT arr112 = some 0 ∧ objCmpF sourceDiscipline ops 20 arr112 sharedT = some 1 ∧
-      valCmp ops sharedT.content sharedT.content = 0 ∧ valCmp ops arr112.content sharedT.content = 0) ∧
+      valCmp ops sharedT.content sharedT.content = 0 ∧ valCmp ops arr112.content sharedT.content = 0 ∧
+      objCmpF sourceDiscipline ops 20 arrOfFresh arrOfT = some 1 ∧ objCmpF sourceDiscipline ops 20 arrOfT arrOfFresh = some 0 ∧
+      objCmpF sourceDiscipline ops 20 arrOfT arrOfT = some 1 ∧ valCmp ops arrOfFresh.content arrOfT.content = 0 ∧
+      objCmpF sourceDiscipline ops 20 lstOfT lstOfT = some 1 ∧
+      objCmpF sourceDiscipline ops 20 treeOfT treeOfT = some 1 ∧ objCmpF sourceDiscipline ops 20 treeOfFresh treeOfT = some 1 ∧
+      objCmpF sourceDiscipline ops 20 treeOfT treeOfFresh = some 0 ∧ valCmp ops treeOfT.content treeOfT.content = 0) ∧
+    (sharedT.nodup = false ∧ arrOfT.nodup = false ∧ lstOfT.nodup = false ∧ treeOfT.nodup = false) ∧
     ¬ C09_tuple_walk_content_statement := by
-  refine ⟨fun ops => ⟨rfl, rfl, rfl, rfl, rfl⟩, fun h => ?_⟩
-  have h1 := h refFloatOps 20 sharedT sharedT (by decide)
-  have h2 : objCmpF sourceDiscipline refFloatOps 20 sharedT sharedT = some 1 := rfl
+  refine ⟨fun ops => ⟨rfl, rfl, rfl, rfl, rfl, rfl, rfl, rfl, rfl, rfl, rfl, rfl, rfl, rfl⟩, ⟨rfl, rfl, rfl, rfl⟩, fun h => ?_⟩
+  have h1 := h refFloatOps 20 arrOfT arrOfT (by decide)
+  have h2 : objCmpF sourceDiscipline refFloatOps 20 arrOfT arrOfT = some 1 := rfl
   rw [h2] at h1
   revert h1; decide
 
@@ -344,9 +451,11 @@ theorem C09_tuple_identity_walk_refuted :
 
 /-! ### the hand model mirrors the loops that are in the source now -/
 
-/-- the bodies of Array_Cmp, List_Cmp, Tuple_Cmp, Tree_Cmp, String_Cmp, Type_Cmp, of `cmp` itself and of the iterator steps
-    the loops go through (Array_Iter_Next, List_Iter_Next, Tuple_Iter_Init, Tuple_Iter_Next) are, up to white space, the
-    texts `lexCmp` / `pairsCmp` / `bytesCmp` / `cmpTop` / `loopF` / `iterNext` were written against -/
+/-- the bodies of Array_Cmp, List_Cmp, Tuple_Cmp, Tree_Cmp, String_Cmp, Type_Cmp, of `cmp` itself, of the iterator functions
+    the loops start from and go through (X_Iter_Init / X_Iter_Next of Array, List, Tuple, Tree), of Tree_Get, of the accessors
+    `c_int` / `c_float` / Int_C_Int / Float_C_Float that Int_Cmp / Float_Cmp read their operands through, and of Tuple_Assign
+    (how a container copies a Tuple element: the item pointers — `Obj.cont`, `Obj.tree`) are, up to white space, the texts
+    `lexCmp` / `pairsCmp` / `bytesCmp` / `cmpTop` / `loopF` / `treeLoopF` / `iterNext` were written against -/
 theorem C09_loops_as_modelled :
     CelloGen.CmpLoops.arrayCmpText = CelloGen.CmpLoops.arrayCmpModelled ∧ CelloGen.CmpLoops.listCmpText = CelloGen.CmpLoops.listCmpModelled ∧
     CelloGen.CmpLoops.tupleCmpText = CelloGen.CmpLoops.tupleCmpModelled ∧ CelloGen.CmpLoops.treeCmpText = CelloGen.CmpLoops.treeCmpModelled ∧
@@ -355,8 +464,17 @@ theorem C09_loops_as_modelled :
     CelloGen.CmpLoops.arrayIterNextText = CelloGen.CmpLoops.arrayIterNextModelled ∧
     CelloGen.CmpLoops.listIterNextText = CelloGen.CmpLoops.listIterNextModelled ∧
     CelloGen.CmpLoops.tupleIterInitText = CelloGen.CmpLoops.tupleIterInitModelled ∧
-    CelloGen.CmpLoops.tupleIterNextText = CelloGen.CmpLoops.tupleIterNextModelled :=
-  ⟨rfl, rfl, rfl, rfl, rfl, rfl, rfl, rfl, rfl, rfl, rfl⟩
+    CelloGen.CmpLoops.tupleIterNextText = CelloGen.CmpLoops.tupleIterNextModelled ∧
+    CelloGen.CmpLoops.arrayIterInitText = CelloGen.CmpLoops.arrayIterInitModelled ∧
+    CelloGen.CmpLoops.listIterInitText = CelloGen.CmpLoops.listIterInitModelled ∧
+    CelloGen.CmpLoops.treeIterInitText = CelloGen.CmpLoops.treeIterInitModelled ∧
+    CelloGen.CmpLoops.treeIterNextText = CelloGen.CmpLoops.treeIterNextModelled ∧
+    CelloGen.CmpLoops.treeGetText = CelloGen.CmpLoops.treeGetModelled ∧
+    CelloGen.CmpLoops.cIntText = CelloGen.CmpLoops.cIntModelled ∧ CelloGen.CmpLoops.cFloatText = CelloGen.CmpLoops.cFloatModelled ∧
+    CelloGen.CmpLoops.intCIntText = CelloGen.CmpLoops.intCIntModelled ∧
+    CelloGen.CmpLoops.floatCFloatText = CelloGen.CmpLoops.floatCFloatModelled ∧
+    CelloGen.CmpLoops.tupleAssignText = CelloGen.CmpLoops.tupleAssignModelled :=
+  ⟨rfl, rfl, rfl, rfl, rfl, rfl, rfl, rfl, rfl, rfl, rfl, rfl, rfl, rfl, rfl, rfl, rfl, rfl, rfl, rfl, rfl⟩
 
 /-- the discipline the model is run with is the one of the source: Array_Cmp and List_Cmp go through their iterators,
     Tuple_Cmp by slot index -/
